@@ -1,1 +1,2 @@
+import Dawgs.Props.C13
 import Dawgs.Props.C16
